@@ -9,7 +9,7 @@ _VERDICT = re.compile(r'<< ?"VERDICT", (\d+), ("[^"]*"|-?\d+), "([^"]*)", (\d+) 
 
 
 def validate(traces, module, workdir, constants=(), procs=16, timeout=900, spec='TraceSpec',
-             invariants=(), tag='trace'):
+             invariants=(), tag='trace', pass_through=False):
     """traces: list of {'id': ..., 'ev': [...]} -> (verdicts {id: verdict}, stats)"""
     if not traces:
         return {}, dict(generated=0, distinct=0, wall_s=0.0, runs=0)
@@ -21,7 +21,7 @@ def validate(traces, module, workdir, constants=(), procs=16, timeout=900, spec=
     def one(i):
         tf = os.path.join(workdir, '%s.%d.json' % (tag, i))
         with open(tf, 'w') as f:
-            json.dump([{'id': t['id'], 'ev': t['ev']} for t in parts[i]], f)
+            json.dump([(t if pass_through else {'id': t['id'], 'ev': t['ev']}) for t in parts[i]], f)
         res = tlc.run(module, cfg, workdir, workers=1, timeout=timeout, env={'TRACE_FILE': tf},
                       outname='%s.%d.out' % (tag, i), heap='3g')
         txt = re.sub(r'\s+', ' ', open(res['out'], errors='replace').read())      # PrintT wraps long tuples
